@@ -125,24 +125,11 @@ theorem rollbackFabrics_idx (cfg : Cfg) (n : Node) (a : Armed) (fs : List Fabric
 theorem purgeResum_mem (n : Node) (idx : Nat) :
     (purgeResum n idx).1.fabrics = n.fabrics ∧ (purgeResum n idx).1.sessions = n.sessions ∧
     (∀ r ∈ (purgeResum n idx).1.resum, r ∈ n.resum ∧ r.fab ≠ idx) := by
-  unfold purgeResum
-  by_cases h : (n.resum.any fun r => decide (r.fab = idx)) = true
-  · simp only [h, if_true, kvTick]
-    have hmem : ∀ r ∈ n.resum.filter (fun r => decide (r.fab ≠ idx)), r ∈ n.resum ∧ r.fab ≠ idx := by
-      intro r hr
-      have := List.mem_filter.mp hr
-      exact ⟨this.1, by simpa using this.2⟩
-    by_cases h0 : n.failIn = 0
-    · simp only [h0, if_true, kvCommit]; exact ⟨rfl, rfl, hmem⟩
-    · by_cases h1 : n.failIn = 1
-      · simp only [h1]; exact ⟨rfl, rfl, hmem⟩
-      · simp only [h0, h1, if_false, kvCommit]; exact ⟨rfl, rfl, hmem⟩
-  · simp only [h]
-    refine ⟨rfl, rfl, fun r hr => ⟨hr, ?_⟩⟩
-    intro hfab
-    apply h
-    rw [List.any_eq_true]
-    exact ⟨r, hr, by simpa using hfab⟩
+  have ⟨p1, p2, _, _, _, _, p7, _⟩ := purgeResum_spec n idx
+  refine ⟨p1, p2, fun r hr => ?_⟩
+  rw [p7] at hr
+  have := List.mem_filter.mp hr
+  exact ⟨this.1, by simpa using this.2⟩
 
 def removedOf (a : Armed) (fs : List Fabric) : Option Nat :=
   if a.fab ≠ 0 ∧ !fs.any (fun f => f.idx = a.fab) then some a.fab else none
